@@ -103,7 +103,10 @@ def component_twins(ctx: Ctx):
         S = set(order)
         case = {'nx': nx, 'ny': ny, 'kpl': kpl, 'levels': levels, 'domains': doms, 'order': order}
         c1, t1 = p_exact.build_poly_component(rng, nx, 0, ny, levels, kpl, unit, name='orig')
-        c2, t2 = p_exact.build_poly_component(rng, nx, 0, ny, levels, kpl, doms, name='twin')
+        # a third of the twins normalise their inputs with minmax (the normalisation must not introduce an absolute length scale either)
+        tw_norms = {f'x{k}': 'minmax' for k in range(nx)} if rng.random() < 0.33 else None
+        case['twin_input_norm'] = 'minmax' if tw_norms else None
+        c2, t2 = p_exact.build_poly_component(rng, nx, 0, ny, levels, kpl, doms, name='twin', norms=tw_norms)
         p_exact.fill_terms(rng, t1, S, 0, nx, kpl)
         for k in t1:
             t2[k].clear(); t2[k].extend(t1[k])
@@ -122,6 +125,8 @@ def component_twins(ctx: Ctx):
                 break
             # gradients / hessians of the twin, rescaled, against the analytic derivatives of the polynomial (unit coords)
             xin = {f'x{k}': np.array([x2[k]]) for k in range(nx)}
+            if tw_norms:       # the component differentiates with respect to its (normalised) inputs: for minmax these are the unit coordinates
+                xin = {f'x{k}': np.asarray(c2.inputs[f'x{k}'].normalize(np.array([x2[k]])), dtype=float) for k in range(nx)}
             uex = [(Fraction(x2[k]) - Fraction(doms[k][0])) / (Fraction(doms[k][1]) - Fraction(doms[k][0])) for k in range(nx)]
             g = c2.gradient(xin, index_set='train')
             for out, terms in t2.items():
@@ -137,7 +142,7 @@ def component_twins(ctx: Ctx):
                             if j != k:
                                 t *= uex[j] ** ex[j]
                         ref += t
-                    got = float(gg[k]) * (doms[k][1] - doms[k][0])
+                    got = float(gg[k]) * (1.0 if tw_norms else (doms[k][1] - doms[k][0]))
                     if not abs(got - float(ref)) <= 1e-5 * box * 36:
                         ctx.violate('C17:gradient-scale-dependent', f'd{out}/dx{k} * width = {got}, analytic derivative (unit coordinates) {float(ref)}',
                                     {**case, 'x': x2}); break
